@@ -462,7 +462,13 @@ class Array(metaclass=MetaArray):
             shape = cls._shape
         if not cls._is_static_type:
             items = np.prod(shape)
-            self._offsets = Int64._array_from_buffer(buffer, coffset, items)
+            offsets = Int64._array_from_buffer(buffer, coffset, items)
+            if len(shape) > 1:  # table is stored in memory order
+                order = mk_order(cls._order, shape)
+                cshape = [shape[io] for io in order]
+                aorder = [order.index(ii) for ii in range(len(order))]
+                offsets = offsets.reshape(cshape).transpose(aorder)
+            self._offsets = offsets
         return self
 
     @classmethod
